@@ -3,6 +3,7 @@ import RossModel.Lemmas.Usart
 import RossModel.Lemmas.Builder
 import RossModel.Lemmas.Can
 import RossModel.Lemmas.FrameWF
+import RossModel.Lemmas.SourceFrame
 /-!
 # C04 — Frame decoders never crash on untrusted input; accepted frames are well-formed
 
@@ -53,5 +54,15 @@ example : fromUsart [0x05, 0x01] = .err .cobsError ∧ fromUsart [0x01, 0x00, 0x
 /-- the size check and header unpacking of `from_usart_frame`, and the field extraction of `from_bxcan_frame`, use the
 constants the model uses -/
 theorem C04_src_decoders : (SrcTie.fromUsartOk && SrcTie.fromCanOk) = true := by decide
+
+/-- **C04 about the USART frame decoder as it reads now.** `Src.fromUsart` is the model's COBS decoder followed by
+`Src.fromUsartBody`, the part of `Frame::from_usart_frame` after the COBS decoding translated statement by statement from
+`src/frame.rs` on every run (the size test with its short-circuit `||`, every `frame[k]` as a read that panics when `k`
+is not an index, shifts and masks with Rust's widths, the array fill loop). For **every** byte string: it does not panic,
+and every frame it returns is well-formed. -/
+theorem C04_src_fromUsart_total (enc : List UInt8) :
+    Src.fromUsart enc ≠ .panic ∧ ∀ f, Src.fromUsart enc = .ok f → f.WF := by
+  rw [Ross.src_fromUsart_eq]
+  exact ⟨Ross.fromUsart_no_panic enc, fun f h => Ross.fromUsart_wf enc f h⟩
 
 end Ross.Props
